@@ -156,6 +156,9 @@ func runResp(c respCase) harness.Result {
 	if !c.Legal {
 		labels = append(labels, "format-allowed-not-spec-legal")
 	}
+	if c.Framing == spec.RTU && hostile.EndsWithExceptionFrame(frame) {
+		labels = append(labels, "payload-ends-in-exception-frame")
+	}
 	wantType := cat.TypeName(c.Framing, c.Resp.FC, false)
 	for _, p := range parsersFor(c.Framing, c.Resp.FC) {
 		in := append([]byte(nil), frame...)
